@@ -52,3 +52,11 @@ Theorem c18_other_traffic_keeps_await : forall s o s',
   o <> Out RPingReq -> o <> Inc PPingResp -> o <> Clean ->
   next step s o = Some s' -> await_pingresp s' = await_pingresp s.
 Proof. exact other_traffic_keeps_await. Qed.
+
+Theorem c18_connect_in_time : forall tm x, x < tm -> poll_connect tm (Some x) = Connected x.
+Proof. exact connect_in_time. Qed.
+
+Theorem c18_v5_server_ka_zero_refuted_before_fix :
+  snd (krun_v5_orig 0 kinit [Connect 0; Tick 0; Tick 0]) = [PingReqAt 0; ErrAwait 0]
+  /\ snd (krun 0 kinit [Connect 0; Tick 0; Tick 0; Tick 100000]) = [].
+Proof. exact v5_server_ka_zero_refuted. Qed.
